@@ -13,6 +13,7 @@ import (
 	"sort"
 	"strings"
 	"sync"
+	"time"
 
 	"github.com/dcaiafa/lox/verif/internal/mc"
 	"github.com/dcaiafa/lox/verif/internal/pipe"
@@ -171,6 +172,20 @@ func (r *c13Runner) runLox(d dirState, mode string, report bool) (dirState, stri
 	}
 	for _, n := range names {
 		os.WriteFile(filepath.Join(dir, n), []byte(d[n]), 0o666)
+	}
+	// modification times are part of the environment too: in name-order states
+	// every source is much OLDER than any generated file left in the directory (a
+	// restored or copied tree), in reverse-order states much NEWER (an edit);
+	// what lox generates must not depend on either
+	for _, n := range names {
+		if strings.HasSuffix(n, ".gen.go") {
+			continue
+		}
+		t := time.Unix(1000000000, 0)
+		if d[c13OrderKey] == "rev" {
+			t = time.Now().Add(time.Hour)
+		}
+		os.Chtimes(filepath.Join(dir, n), t, t)
 	}
 	var args []string
 	if report {
